@@ -259,14 +259,50 @@ pub fn run(tier: &str) -> i32 {
                 }
             }
         }
+        // the same with unrelated bytes following the stream (container formats, concatenated streams):
+        // the verdict is about the 4 bytes after the last block, whatever comes after them. Tails: a
+        // copy of the correct Adler-32, zeros, the stream itself; on the unmodified stream, on every
+        // single-bit trailer flip, and on the *shifted* trailers junk(k) ++ adler (k = 1..3), where
+        // the correct value sits k bytes too late.
+        let adler_ok = s.bytes[n - 4..].to_vec();
+        let base: Vec<(Vec<u8>, bool, usize)> = variants.iter().take(33).cloned().collect();
+        let mut tails: Vec<Vec<u8>> = vec![adler_ok.clone(), vec![0u8; 8]];
+        if !big {
+            tails.push(s.bytes.clone());
+        }
+        for tail in &tails {
+            for (d, good, olen) in &base {
+                let mut t = d.clone();
+                t.extend_from_slice(tail);
+                variants.push((t, *good, *olen));
+            }
+        }
+        for k in 1..=3usize {
+            for junk in [0x00u8, 0xff, adler_ok[0], adler_ok[3]] {
+                let mut t = s.bytes[..n - 4].to_vec();
+                t.extend(std::iter::repeat(junk).take(k));
+                t.extend_from_slice(&adler_ok);
+                t.extend_from_slice(&[0x55; 4]);
+                let good = t[n - 4..n] == adler_ok[..];
+                variants.push((t, good, s.plain.len()));
+            }
+        }
         for (d, good, olen) in &variants {
             watchdog::pulse();
             let mut scheds: Vec<Vec<usize>> = vec![vec![]];
             for c in n - 5..n {
                 scheds.push(vec![c]);
             }
+            if d.len() > n {
+                scheds.push(vec![n]);
+                scheds.push(vec![n + 1]);
+                for c in n - 3..n {
+                    scheds.push(vec![c, n]);
+                    scheds.push(vec![c, c + 1]);
+                }
+            }
             if !big {
-                scheds.push((1..n).collect());
+                scheds.push((1..d.len()).collect());
             }
             let blen_flat = *olen + 64;
             for cuts in &scheds {
